@@ -105,16 +105,45 @@ func typeTables() (string, error) {
 		if ierr != nil {
 			return "", ierr
 		}
+		if !found {
+			// the same set written as a switch: the expressions of the case clauses that return true
+			ast.Inspect(fd, func(n ast.Node) bool {
+				cc, ok := n.(*ast.CaseClause)
+				if !ok || len(cc.List) == 0 || len(cc.Body) != 1 {
+					return true
+				}
+				rs, ok := cc.Body[0].(*ast.ReturnStmt)
+				if !ok || len(rs.Results) != 1 {
+					return true
+				}
+				if id, ok := rs.Results[0].(*ast.Ident); !ok || id.Name != "true" {
+					return true
+				}
+				for _, e := range cc.List {
+					k, err := resolveStringExpr(e, byName)
+					if err != nil {
+						ierr = err
+						return false
+					}
+					validKeys = append(validKeys, k)
+				}
+				found = true
+				return true
+			})
+			if ierr != nil {
+				return "", ierr
+			}
+		}
 	}
 	if !found {
-		return "", fmt.Errorf("IsValidType: no map literal found (function rewritten?)")
+		return "", fmt.Errorf("IsValidType: neither a map literal nor a switch with clauses returning true found (function rewritten?)")
 	}
 
 	var b strings.Builder
 	b.WriteString("From Coq Require Import String List NArith Bool.\nImport ListNotations.\nLocal Open Scope string_scope.\n\n")
 	b.WriteString("(* constants of type SchemaType declared in type.go (AST) *)\n")
 	fmt.Fprintf(&b, "Definition schema_types : list string := %s.\n\n", qlist(types))
-	b.WriteString("(* keys of the map literal in IsValidType (AST) *)\n")
+	b.WriteString("(* the names IsValidType lists: keys of its map literal, or expressions of its case clauses that return true (AST) *)\n")
 	fmt.Fprintf(&b, "Definition valid_keys : list string := %s.\n\n", qlist(validKeys))
 
 	// evaluation of IsValidType on probes: the vocabulary and near misses
